@@ -6,6 +6,7 @@ import ChmpyVerif.Props.C03
 import ChmpyVerif.Props.C05
 import ChmpyVerif.Props.C11
 import ChmpyVerif.Props.C12
+import ChmpyVerif.Props.C13
 import ChmpyVerif.Props.C14
 import ChmpyVerif.Props.C15
 import ChmpyVerif.Props.C16
